@@ -339,13 +339,14 @@ class Run:
         self.violations.append((identity, replay, concrete))
 
     def finish(self):
-        os.makedirs(os.path.join(VERIF, "evidence"), exist_ok=True)
+        evdir = os.environ.get("VERIF_EVIDENCE_DIR", os.path.join(VERIF, "evidence"))
+        os.makedirs(evdir, exist_ok=True)
         self.cov["distinct_nontrivial"] = len(self.classes)
         ev = {"property_id": self.pid, "tier": self.tier, "seed": self.seed, "level": self.level,
               "coverage": self.cov, "assumptions": self.assumptions, "wall_s": round(time.time() - self.t0, 1),
               "violations": len(self.violations), "known_findings": [k[0] for k in self.known],
               "notes": self.notes}
-        with open(os.path.join(VERIF, "evidence", self.pid + ".json"), "w") as f:
+        with open(os.path.join(evdir, self.pid + ".json"), "w") as f:
             json.dump(ev, f, indent=1, sort_keys=True)
         for ident, what in self.known:
             print("KNOWN-FINDING: property=%s %s %s" % (self.pid, ident, what))
